@@ -125,6 +125,8 @@ def u_assign_center(I):
             return Builtin('GetAtomWithIdx', lambda I2, a, kw: Obj(AAtomCls, {'idx': z3_of(a[0])}, 'param'))
         if name == 'GetAtoms':
             return Builtin('GetAtoms', lambda I2, a, kw: SymSeq(N, lambda i: Obj(AAtomCls, {'idx': i}, 'param'), 'atoms', origin='param'))
+        if name == 'GetNumAtoms':
+            return Builtin('GetNumAtoms', lambda I2, a, kw: N)
         return NotImplementedVal
 
     def aatom_attr(I_, o, name):
@@ -304,6 +306,71 @@ def u_assign_descriptor(I):
     return {'inputs': {'atoms': atoms}}
 
 
+def u_assign_descriptor_multi(I):
+    """accumulation over entries: several entries of the three kinds may carry the SAME name (BensonGA: Cis, AlkaneGauche ...);
+    the count of a name is the sum over its entries; smiles-based entries look at the clean molecule, smarts-based at the
+    hydrogen-complete one, each with its own useChirality; remaps multiply"""
+    ctx = I.ctx
+    W_ = I.world
+    cls = source.module(SCHEME).classes['GroupAdditivityScheme']
+    names = [('A', 'A', 'A', 'A'), ('A', 'B', 'A', 'B'), ('A', 'B', 'C', 'D'), ('A', 'A', 'B', 'B')][ctx.choose([True] * 4, 'names of the four entries')]
+    counts = [[0, 1, 2][ctx.choose([True] * 3, 'distinct matches of entry %d' % e)] for e in range(4)]
+    remaps = [{}, {'A': [(2, 'Z'), (1, 'B')]}][ctx.choose([True, True], 'remaps')]
+    calls = []
+
+    def matches_of(e):
+        return tuple((100 * e + i,) for i in range(counts[e]))
+    q = [Obj(BuiltinClass('DescQuery%d' % e), {}, 'param') for e in range(2)]
+    for e in range(2):
+        W_.abstract['DescQuery%d' % e] = {'attr': (lambda e_: lambda I_, o, n: Builtin('GetQueryMatches', lambda I2, a, k: (calls.append(('ring', e_, a[0])), matches_of(e_))[1])
+                                                   if n == 'GetQueryMatches' else NotImplementedVal)(e)}
+    patt = {2: Obj(BuiltinClass('Patt'), {'e': 2}, 'param'), 3: Obj(BuiltinClass('Patt'), {'e': 3}, 'param')}
+    W_.abstract['Patt'] = {}
+
+    def mol_attr(I_, o, n):
+        if n == 'GetSubstructMatches':
+            def gsm(I2, a, k):
+                e = a[0].fields['e']
+                calls.append(('substruct', e, o, k.get('useChirality')))
+                return matches_of(e)
+            return Builtin('GetSubstructMatches', gsm)
+        return NotImplementedVal
+    W_.abstract['AnyMol'] = {'attr': mol_attr}
+    mol = Obj(BuiltinClass('AnyMol'), {'which': 'with hydrogens'}, 'param')
+    clean = Obj(BuiltinClass('AnyMol'), {'which': 'clean'}, 'param')
+    chir = [[True, False], [False, True]][ctx.choose([True, True], 'useChirality flags')]
+    o = Obj(cls, {'other_descriptors': [{'name': names[0], 'connectivity': q[0]}, {'name': names[1], 'connectivity': q[1]}],
+                  # entries exactly as GroupAdditivityScheme.Load builds them: the compiled pattern is stored under 'smarts' for both kinds
+                  'smiles_based_descriptors': [{'name': names[2], 'smarts': patt[2], 'useChirality': chir[0]}],
+                  'smarts_based_descriptors': [{'name': names[3], 'smarts': patt[3], 'useChirality': chir[1]}],
+                  'remaps': remaps}, 'param')
+    out = run_target(I, SCHEME, 'GroupAdditivityScheme._AssignDescriptor', [mol, clean], self_obj=o)
+    want = {}
+    for nme, c in zip(names, counts):
+        if c:
+            want[nme] = want.get(nme, 0) + c
+    final = {}
+    for nme, c in want.items():
+        if nme in remaps:
+            for coef, tgt in remaps[nme]:
+                final[tgt] = final.get(tgt, 0) + c * coef
+        else:
+            final[nme] = final.get(nme, 0) + c
+
+    def posts(r):
+        if not isinstance(r, dict):
+            return [('returns the descriptor counts', z3.BoolVal(False))]
+        got = {k: v for k, v in r.items()}
+        sub = [c for c in calls if c[0] == 'substruct']
+        return [('the count of a name is the sum over all entries carrying that name (entries of the three kinds), remaps applied with their coefficients',
+                 z3.BoolVal(got == final)),
+                ('smiles-based entries are matched on the clean molecule, smarts-based ones on the hydrogen-complete molecule, each with its own useChirality',
+                 z3.BoolVal(sorted((c[1], c[2].fields['which'], c[3]) for c in sub) == [(2, 'clean', chir[0]), (3, 'with hydrogens', chir[1])])),
+                ('RING-based entries are matched on the hydrogen-complete molecule', z3.BoolVal(all(c[2] is mol for c in calls if c[0] == 'ring')))]
+    check_outcome(I, out, raises={}, returns=posts)
+    return {'inputs': {'names': names, 'counts': counts}}
+
+
 def replay_descriptor(model, state, ob):
     import pgradd.ThermoChem  # noqa
     from . import real
@@ -402,6 +469,7 @@ def _aromatization(I, sizes):
     sym = {(r, i): I.fresh('sym%d_%d' % (r, i), 'str') for r, ring in enumerate(rings) for i in range(len(ring))}
     bt = {(r, i): I.fresh('bond%d_%d' % (r, i), 'int') for r, ring in enumerate(rings) for i in range(len(ring))}   # bond i joins ring[i], ring[i+1]
     marks = {'atoms': set(), 'bonds_arom': set(), 'bonds_conj': set(), 'bonds_type': {}}
+    flag0 = {}
     ch = W_.externs['rdkit.Chem'].members
     ch['GetSymmSSSR'] = Builtin('GetSymmSSSR', lambda I_, a, k: list(rings))
     RAtom, RBond, RMol = BuiltinClass('RAtom'), BuiltinClass('RBond'), BuiltinClass('RMol')
@@ -412,6 +480,9 @@ def _aromatization(I, sizes):
             return Builtin('GetSymbol', lambda I2, a, k: sym[i])
         if name == 'SetIsAromatic':
             return Builtin('SetIsAromatic', lambda I2, a, k: marks['atoms'].add(i) if a[0] is True else _unsup('SetIsAromatic(False)'))
+        if name == 'GetIsAromatic':
+            # the flag the molecule arrived with (a Mol object may carry RDKit's own aromaticity; a string input has it cleared): arbitrary
+            return Builtin('GetIsAromatic', lambda I2, a, k: True if i in marks['atoms'] else flag0.setdefault(('atom', i), I.fresh('arom_in_%d_%d' % i, 'bool')))
         return NotImplementedVal
 
     def rbond_attr(I_, o, name):
@@ -421,6 +492,8 @@ def _aromatization(I, sizes):
             return Builtin('GetBondType', lambda I2, a, k: bondtype(cur))
         if name == 'SetIsAromatic':
             return Builtin('SetIsAromatic', lambda I2, a, k: marks['bonds_arom'].add(b))
+        if name == 'GetIsAromatic':
+            return Builtin('GetIsAromatic', lambda I2, a, k: True if b in marks['bonds_arom'] else flag0.setdefault(('bond', b), I.fresh('barom_in_%d_%d' % b, 'bool')))
         if name == 'SetIsConjugated':
             return Builtin('SetIsConjugated', lambda I2, a, k: marks['bonds_conj'].add(b))
         if name == 'SetBondType':
@@ -483,6 +556,7 @@ UNITS = [
     Unit('GroupAdditivityScheme.GetDescriptors', (SCHEME, 'GroupAdditivityScheme.GetDescriptors'), u_getdescriptors, replay_getdescriptors),
     Unit('GroupAdditivityScheme._AssignCenterPattern', (SCHEME, 'GroupAdditivityScheme._AssignCenterPattern'), u_assign_center),
     Unit('GroupAdditivityScheme._AssignDescriptor', (SCHEME, 'GroupAdditivityScheme._AssignDescriptor'), u_assign_descriptor, replay_descriptor),
+    Unit('GroupAdditivityScheme._AssignDescriptor[several entries, shared names, remaps]', (SCHEME, 'GroupAdditivityScheme._AssignDescriptor'), u_assign_descriptor_multi),
     Unit('_aromatization_Benson', (SCHEME, '_aromatization_Benson'), u_aromatization),
     Unit('_aromatization_Benson[two disjoint rings]', (SCHEME, '_aromatization_Benson'), u_aromatization_two),
 ]
